@@ -205,6 +205,73 @@ def run_select(case, ctx):
         ctx.nontrivial({k: case[k] for k in ("fitness", "tsize", "eval_loop", "elitism", "popsize", "npseed", "generations")})
 
 
+def run_helper(case, ctx):
+    """tournament_selection_and_mutation (the wiring every training loop uses): with save_elite the agent written to disk is the elite
+    select() returned - a copy of a fittest member of the old population - whatever the elitism flag and the mutation settings."""
+    import os
+    import shutil
+    import tempfile
+
+    from agilerl.hpo.tournament import TournamentSelection
+    from agilerl.utils.utils import tournament_selection_and_mutation
+    from vp.gen import histories as hist
+
+    algo = case["algo"]
+    n = len(case["fitness"])
+    try:
+        pop = []
+        for i in range(n):
+            a = ag.build({"algo": algo, "obs": "vector", "seed": 300 + i + case["seed"], "index": i})
+            a.fitness = [float(x) for x in case["fitness"][i]]
+            pop.append(a)
+    except Exception as e:  # noqa: BLE001
+        ctx.label(f"setup-failed:{type(e).__name__}")
+        return
+    means = [_mean_last(a, case["eval_loop"]) for a in pop]
+    best = max(means)
+    ts = TournamentSelection(case["tsize"], case["elitism"], n, case["eval_loop"])
+    mut = hist.make_mutations(case["mut"], case["npseed"], mutate_elite=case["mutate_elite"])
+    d = tempfile.mkdtemp(prefix="vpc05_")
+    cwd = os.getcwd()
+    os.chdir(d)
+    try:
+        np.random.seed(case["npseed"])
+        with ctx.promised("C05/helper/call", algo=algo):
+            new_pop = tournament_selection_and_mutation(pop, ts, mut, "env", algo=None, elite_path=os.path.join(d, "elite.pt"), save_elite=True)
+        ctx.check(len(new_pop) == n, "C05/helper/wrong_population_size", "", got=len(new_pop), want=n)
+        path = os.path.join(d, "elite.pt")
+        if not ctx.check(os.path.exists(path), "C05/helper/elite_not_saved", "save_elite=True wrote no elite checkpoint"):
+            return
+        with ctx.promised("C05/helper/load_saved_elite", algo=algo):
+            saved = type(pop[0]).load(path)
+        parents = [i for i, a in enumerate(pop) if list(a.fitness) == list(saved.fitness) and _same_weights(a, saved)]
+        if not parents:
+            ctx.fail("C05/helper/saved_elite_is_not_a_copy_of_an_old_member", "the agent saved as elite is not a faithful copy of any member of "
+                     "the population that was selected from (e.g. it was mutated, or it is not the elite select() returned)",
+                     elitism=case["elitism"], mut=case["mut"], mutate_elite=case["mutate_elite"], saved_fitness=list(saved.fitness))
+        else:
+            ctx.check(any(means[i] == best for i in parents), "C05/helper/saved_elite_not_fittest",
+                      "the agent saved as elite is not a copy of an agent with the highest mean of the last eval_loop scores",
+                      means=means, saved_copy_of=parents, elitism=case["elitism"])
+    finally:
+        os.chdir(cwd)
+        shutil.rmtree(d, ignore_errors=True)
+    ctx.label("helper:elitism" if case["elitism"] else "helper:no-elitism")
+    ctx.label(f"helper:mut={case['mut']}")
+    if len(set(means)) >= 2:
+        ctx.nontrivial({"h": 1, "f": case["fitness"], "e": case["elitism"], "m": case["mut"], "me": case["mutate_elite"], "s": case["npseed"]})
+
+
+@st.composite
+def helper_strategy(draw, tier):
+    n = draw(st.integers(2, 5))
+    fit = [draw(st.lists(st.integers(-3, 3), min_size=1, max_size=4)) for _ in range(n)]
+    return {"algo": draw(st.sampled_from(engine.stratum(["DQN", "DDPG", "PPO", "DQN"]))), "fitness": fit, "tsize": draw(st.integers(1, n)),
+            "eval_loop": draw(st.integers(1, 4)), "elitism": draw(st.booleans()), "npseed": draw(st.integers(0, 9999)),
+            "seed": draw(st.integers(0, 50)), "mut": draw(st.sampled_from(["none", "param", "arch", "rl_hp"])),
+            "mutate_elite": draw(st.booleans())}
+
+
 @st.composite
 def select_strategy(draw, tier):
     n = draw(st.integers(1, 6))
@@ -232,8 +299,12 @@ PROPERTY = Property(
         Obligation("select", run_select, strategy=select_strategy,
                    examples={"quick": 20, "thorough": 600}, shards={"quick": 12, "thorough": 16},
                    shrink_budget={"quick": 80, "thorough": 400}),
+        Obligation("helper_saves_elite", run_helper, strategy=helper_strategy,
+                   examples={"quick": 12, "thorough": 150}, shards={"quick": 4, "thorough": 16},
+                   shrink_budget={"quick": 40, "thorough": 200}),
     ],
-    assumptions=["parents are identified by value (weights + fitness list); agents are built from distinct seeds so weights are distinct",
+    assumptions=["helper obligation: the saved elite is read back with Algo.load (C07 decides that a checkpoint restores the agent)",
+                 "parents are identified by value (weights + fitness list); agents are built from distinct seeds so weights are distinct",
                  "uniformity of the draws themselves is numpy's and is not checked"],
     wanted_labels=["elitism", "no-elitism", "popsize!=len", "trained-a-member-of-the-new-generation"],
 )
